@@ -8,9 +8,6 @@ open H5V.Model.Dom (Id QualName Attr NodeOrText SinkOp Output ElementFlags Quirk
 open H5V.Model.HtmlTB
 open H5V.Lemmas.TBM
 
-/-- the handle that is the answer -/
-abbrev one : Id → List Id := fun a => [a]
-
 /-! ### sink wrappers -/
 
 theorem pv_sinkUnit {c : List Id} (op : SinkOp) (h : ∀ x ∈ opArgs op, x ∈ c) : PV c (sinkUnit op) nil := by
@@ -41,7 +38,7 @@ macro_rules | `(tactic| pv_leaf) => `(tactic| (with_reducible apply pv_sinkBool)
 
 theorem pv_parseError {c : List Id} (msg : String) : PV c (parseError msg) nil := by
   unfold parseError; exact pv_sinkUnit _ (fun _ hx => nomatch hx)
-macro_rules | `(tactic| pv_leaf) => `(tactic| exact pv_parseError _)
+macro_rules | `(tactic| pv_leaf) => `(tactic| with_reducible exact pv_parseError _)
 
 theorem pv_elemName {c : List Id} (h : Id) (hm : h ∈ c) : PV c (elemName h) nil := by
   unfold elemName
@@ -73,34 +70,34 @@ macro_rules | `(tactic| pv_leaf) => `(tactic| (with_reducible apply pv_elemIn) <
 
 theorem pv_currentNode {c : List Id} : PV c currentNode one := by
   unfold currentNode; pv_walk
-macro_rules | `(tactic| pv_leaf) => `(tactic| exact pv_currentNode)
+macro_rules | `(tactic| pv_leaf) => `(tactic| with_reducible exact pv_currentNode)
 
 theorem pv_adjustedCurrentNode {c : List Id} : PV c adjustedCurrentNode one := by
   unfold adjustedCurrentNode; pv_walk
-macro_rules | `(tactic| pv_leaf) => `(tactic| exact pv_adjustedCurrentNode)
+macro_rules | `(tactic| pv_leaf) => `(tactic| with_reducible exact pv_adjustedCurrentNode)
 
 theorem pv_currentNodeIn {c : List Id} (f : EName → Bool) : PV c (currentNodeIn f) nil := by
   unfold currentNodeIn; pv_walk
-macro_rules | `(tactic| pv_leaf) => `(tactic| exact pv_currentNodeIn _)
+macro_rules | `(tactic| pv_leaf) => `(tactic| with_reducible exact pv_currentNodeIn _)
 
 theorem pv_currentNodeNamedS {c : List Id} (n : Str) : PV c (currentNodeNamedS n) nil := by
   unfold currentNodeNamedS; pv_walk
-macro_rules | `(tactic| pv_leaf) => `(tactic| exact pv_currentNodeNamedS _)
+macro_rules | `(tactic| pv_leaf) => `(tactic| with_reducible exact pv_currentNodeNamedS _)
 
 theorem pv_currentNodeNamed {c : List Id} (n : String) : PV c (currentNodeNamed n) nil := pv_currentNodeNamedS _
-macro_rules | `(tactic| pv_leaf) => `(tactic| exact pv_currentNodeNamed _)
+macro_rules | `(tactic| pv_leaf) => `(tactic| with_reducible exact pv_currentNodeNamed _)
 
 theorem pv_htmlElem {c : List Id} : PV c htmlElem one := by
   unfold htmlElem; pv_walk
-macro_rules | `(tactic| pv_leaf) => `(tactic| exact pv_htmlElem)
+macro_rules | `(tactic| pv_leaf) => `(tactic| with_reducible exact pv_htmlElem)
 
 theorem pv_htmlElemFn {c : List Id} : PV c htmlElemFn one := by
   unfold htmlElemFn; pv_walk
-macro_rules | `(tactic| pv_leaf) => `(tactic| exact pv_htmlElemFn)
+macro_rules | `(tactic| pv_leaf) => `(tactic| with_reducible exact pv_htmlElemFn)
 
 theorem pv_isFragment {c : List Id} : PV c isFragment nil := by
   unfold isFragment; pv_walk
-macro_rules | `(tactic| pv_leaf) => `(tactic| exact pv_isFragment)
+macro_rules | `(tactic| pv_leaf) => `(tactic| with_reducible exact pv_isFragment)
 
 /-- state updates: the handle-holding fields change only by known handles -/
 syntax "pv_mod" : tactic
@@ -108,7 +105,7 @@ macro_rules
   | `(tactic| pv_mod) => `(tactic|
       first
         | exact pv_modS_free (fun _ => rfl) (fun _ => rfl)
-        | (refine pv_modS (fun _ => rfl) ?_; mem_tac))
+        | (refine pv_modS (fun _ => rfl) ?_; first | held_tac | mem_tac))
 
 theorem pv_push {c : List Id} (h : Id) (hm : h ∈ c) : PV c (push h) nil := by
   unfold push; pv_mod
@@ -116,55 +113,69 @@ macro_rules | `(tactic| pv_leaf) => `(tactic| (with_reducible apply pv_push) <;>
 
 theorem pv_pop {c : List Id} : PV c pop one := by
   unfold pop; pv_walk
-macro_rules | `(tactic| pv_leaf) => `(tactic| exact pv_pop)
+macro_rules | `(tactic| pv_leaf) => `(tactic| with_reducible exact pv_pop)
 
 theorem pv_popSilently {c : List Id} : PV c popSilently Option.toList := by
   unfold popSilently; pv_walk
-macro_rules | `(tactic| pv_leaf) => `(tactic| exact pv_popSilently)
+macro_rules | `(tactic| pv_leaf) => `(tactic| with_reducible exact pv_popSilently)
 
 theorem pv_setMode {c : List Id} (m : Mode) : PV c (setMode m) nil := by unfold setMode; pv_mod
-macro_rules | `(tactic| pv_leaf) => `(tactic| exact pv_setMode _)
+macro_rules | `(tactic| pv_leaf) => `(tactic| with_reducible exact pv_setMode _)
 theorem pv_setFramesetOk {c : List Id} (b : Bool) : PV c (setFramesetOk b) nil := by unfold setFramesetOk; pv_mod
-macro_rules | `(tactic| pv_leaf) => `(tactic| exact pv_setFramesetOk _)
+macro_rules | `(tactic| pv_leaf) => `(tactic| with_reducible exact pv_setFramesetOk _)
 theorem pv_pushMarker {c : List Id} : PV c pushMarker nil := by
   unfold pushMarker
   refine pv_modS (fun _ => rfl) ?_
   intro s x hx
   simp only [mem_held, mem_afIds, List.mem_append, List.mem_singleton, reduceCtorEq, or_false] at hx ⊢
   exact Or.inl hx
-macro_rules | `(tactic| pv_leaf) => `(tactic| exact pv_pushMarker)
+macro_rules | `(tactic| pv_leaf) => `(tactic| with_reducible exact pv_pushMarker)
 
 /-- the handle an answer of a rule carries (`Script(node)`) -/
-@[pv_mem] def prH : ProcessResult → List Id
+def prH : ProcessResult → List Id
   | .script n => [n]
   | _ => []
+
+@[pv_mem] theorem prH_script (n : Id) : prH (.script n) = [n] := rfl
+@[pv_mem] theorem prH_done : prH .done = [] := rfl
+@[pv_mem] theorem prH_doneAck : prH .doneAckSelfClosing = [] := rfl
+@[pv_mem] theorem prH_split (s : Str) : prH (.splitWhitespace s) = [] := rfl
+@[pv_mem] theorem prH_reprocess (m : Mode) (t : Token) : prH (.reprocess m t) = [] := rfl
+@[pv_mem] theorem prH_reprocessForeign (t : Token) : prH (.reprocessForeign t) = [] := rfl
+@[pv_mem] theorem prH_toPlaintext : prH .toPlaintext = [] := rfl
+@[pv_mem] theorem prH_toRawData (k : H5V.Model.HtmlTok.RawKind) : prH (.toRawData k) = [] := rfl
+@[pv_mem] theorem prH_indicator (s : Str) : prH (.encodingIndicator s) = [] := rfl
 
 /-- a generic state update met in the rules -/
 macro_rules | `(tactic| pv_leaf) => `(tactic| (with_reducible apply pv_modS_free) <;> (intro _; rfl))
 
 theorem pv_unexpected {c : List Id} : PV c unexpected prH := by unfold unexpected; pv_walk
-macro_rules | `(tactic| pv_leaf) => `(tactic| exact pv_unexpected)
+macro_rules | `(tactic| pv_leaf) => `(tactic| with_reducible exact pv_unexpected)
 
 theorem pv_setQuirksMode {c : List Id} (m : QuirksMode) : PV c (setQuirksMode m) nil := by
   unfold setQuirksMode; pv_walk
-macro_rules | `(tactic| pv_leaf) => `(tactic| exact pv_setQuirksMode _)
+macro_rules | `(tactic| pv_leaf) => `(tactic| with_reducible exact pv_setQuirksMode _)
 
 theorem pv_toRawTextMode {c : List Id} (k : H5V.Model.HtmlTok.RawKind) : PV c (toRawTextMode k) prH := by
   unfold toRawTextMode; pv_walk
-macro_rules | `(tactic| pv_leaf) => `(tactic| exact pv_toRawTextMode _)
+macro_rules | `(tactic| pv_leaf) => `(tactic| with_reducible exact pv_toRawTextMode _)
 
 /-! ### creating and inserting nodes -/
 
 theorem pv_createElementWithFlags {c : List Id} (n : QualName) (a : List Attr) (d : Bool) :
     PV c (createElementWithFlags n a d) one := by
   unfold createElementWithFlags; exact pv_sinkNode _ (fun _ hx => nomatch hx)
-macro_rules | `(tactic| pv_leaf) => `(tactic| exact pv_createElementWithFlags _ _ _)
+macro_rules | `(tactic| pv_leaf) => `(tactic| with_reducible exact pv_createElementWithFlags _ _ _)
 
 /-- the handles of an insertion point -/
-@[pv_mem] def ipH : InsertionPoint → List Id
+def ipH : InsertionPoint → List Id
   | .lastChild p => [p]
   | .beforeSibling s => [s]
   | .tableFosterParenting e p => [e, p]
+
+@[pv_mem] theorem ipH_lastChild (p : Id) : ipH (.lastChild p) = [p] := rfl
+@[pv_mem] theorem ipH_beforeSibling (p : Id) : ipH (.beforeSibling p) = [p] := rfl
+@[pv_mem] theorem ipH_foster (e p : Id) : ipH (.tableFosterParenting e p) = [e, p] := rfl
 
 theorem nodes_fst_mem (ip : InsertionPoint) : ip.nodes.1 ∈ ipH ip := by cases ip <;> simp [InsertionPoint.nodes, ipH]
 theorem nodes_snd_mem {ip : InsertionPoint} {x : Id} (h : ip.nodes.2 = some x) : x ∈ ipH ip := by
@@ -204,16 +215,160 @@ macro_rules | `(tactic| pv_leaf) => `(tactic| (with_reducible apply pv_anyHtmlEl
 
 theorem pv_inHtmlElemNamed {c : List Id} (n : String) : PV c (inHtmlElemNamed n) nil := by
   unfold inHtmlElemNamed; pv_walk
-macro_rules | `(tactic| pv_leaf) => `(tactic| exact pv_inHtmlElemNamed _)
+macro_rules | `(tactic| pv_leaf) => `(tactic| with_reducible exact pv_inHtmlElemNamed _)
 
 theorem pv_insertElement {c : List Id} (p : Bool) (ns n : Str) (a : List Attr) (d : Bool) :
     PV c (insertElement p ns n a d) one := by
-  unfold insertElement; pv_walk
-  all_goals
-    rename_i ip _ _ _ _ _ _ _ _ _ _
-    have h1 := nodes_fst_mem ip
-    have h2 := @nodes_snd_mem ip
+  unfold insertElement
+  refine PV.bind (pv_appropriatePlaceForInsertion none (by mem_tac)) fun ip => ?_
+  have h1 := nodes_fst_mem ip
+  have h2 := @nodes_snd_mem ip
+  pv_walk
+macro_rules | `(tactic| pv_leaf) => `(tactic| with_reducible exact pv_insertElement _ _ _ _ _)
+
+theorem pv_insertElementFor {c : List Id} (t : Tag) : PV c (insertElementFor t) one := pv_insertElement ..
+macro_rules | `(tactic| pv_leaf) => `(tactic| with_reducible exact pv_insertElementFor _)
+theorem pv_insertAndPopElementFor {c : List Id} (t : Tag) : PV c (insertAndPopElementFor t) one := pv_insertElement ..
+macro_rules | `(tactic| pv_leaf) => `(tactic| with_reducible exact pv_insertAndPopElementFor _)
+theorem pv_insertPhantom {c : List Id} (n : String) : PV c (insertPhantom n) one := pv_insertElement ..
+macro_rules | `(tactic| pv_leaf) => `(tactic| with_reducible exact pv_insertPhantom _)
+
+theorem pv_insertForeignElement {c : List Id} (t : Tag) (ns : Str) (b : Bool) :
+    PV c (insertForeignElement t ns b) one := by
+  unfold insertForeignElement; pv_walk
+macro_rules | `(tactic| pv_leaf) => `(tactic| with_reducible exact pv_insertForeignElement _ _ _)
+
+theorem pv_createRoot {c : List Id} (a : List Attr) : PV c (createRoot a) nil := by
+  unfold createRoot; pv_walk
+macro_rules | `(tactic| pv_leaf) => `(tactic| with_reducible exact pv_createRoot _)
+
+theorem pv_appendText {c : List Id} (t : Str) : PV c (appendText t) prH := by unfold appendText; pv_walk
+macro_rules | `(tactic| pv_leaf) => `(tactic| with_reducible exact pv_appendText _)
+theorem pv_appendComment {c : List Id} (t : Str) : PV c (appendComment t) prH := by unfold appendComment; pv_walk
+macro_rules | `(tactic| pv_leaf) => `(tactic| with_reducible exact pv_appendComment _)
+theorem pv_appendCommentToDoc {c : List Id} (t : Str) : PV c (appendCommentToDoc t) prH := by
+  unfold appendCommentToDoc; pv_walk
+macro_rules | `(tactic| pv_leaf) => `(tactic| with_reducible exact pv_appendCommentToDoc _)
+theorem pv_appendCommentToHtml {c : List Id} (t : Str) : PV c (appendCommentToHtml t) prH := by
+  unfold appendCommentToHtml; pv_walk
+macro_rules | `(tactic| pv_leaf) => `(tactic| with_reducible exact pv_appendCommentToHtml _)
+theorem pv_parseRawData {c : List Id} (t : Tag) (k : H5V.Model.HtmlTok.RawKind) : PV c (parseRawData t k) prH := by
+  unfold parseRawData; pv_walk
+macro_rules | `(tactic| pv_leaf) => `(tactic| with_reducible exact pv_parseRawData _ _)
+
+/-! ### scope predicates, implied end tags, popping -/
+
+/-- a predicate on handles that only asks the sink about its argument (and handles in flight) -/
+def PredOk (c0 : List Id) (pred : Id → M Bool) : Prop := ∀ (c : List Id) (h : Id), h ∈ c → (∀ x ∈ c0, x ∈ c) → PV c (pred h) nil
+
+theorem pv_inScopeLoop (scope : EName → Bool) (pred : Id → M Bool) (c0 : List Id) (hp : PredOk c0 pred) :
+    ∀ (c : List Id) (l : List Id), (∀ x ∈ l, x ∈ c) → (∀ x ∈ c0, x ∈ c) → PV c (inScopeLoop scope pred l) nil
+  | c, [], _, _ => by unfold inScopeLoop; pv_walk
+  | c, e :: rest, hl, h0 => by
+    have ih := fun c' => pv_inScopeLoop scope pred c0 hp c' rest
+    unfold inScopeLoop
+    refine PV.bind (hp c e (hl e (by simp)) h0) fun b => ?_
     pv_walk
-macro_rules | `(tactic| pv_leaf) => `(tactic| exact pv_insertElement _ _ _ _ _)
+    all_goals first | (apply ih <;> mem_tac) | skip
+
+theorem pv_inScope {c : List Id} (scope : EName → Bool) (pred : Id → M Bool) (c0 : List Id) (hp : PredOk c0 pred)
+    (h0 : ∀ x ∈ c0, x ∈ c) : PV c (inScope scope pred) nil := by
+  unfold inScope
+  refine PV.getS_bind fun s => PV.at ?_ s
+  exact pv_inScopeLoop scope pred c0 hp _ _ (by mem_tac) (by mem_tac)
+
+theorem predOk_htmlElemNamedS (n : Str) : PredOk [] (fun h => htmlElemNamedS h n) :=
+  fun _ h hm _ => pv_htmlElemNamedS h n hm
+theorem predOk_elemIn (f : EName → Bool) : PredOk [] (fun h => elemIn h f) :=
+  fun _ h hm _ => pv_elemIn h f hm
+theorem predOk_sameNode_l (x : Id) : PredOk [x] (fun n => sameNode x n) :=
+  fun _ h hm h0 => pv_sameNode x h (h0 x (by simp)) hm
+theorem predOk_sameNode_r (x : Id) : PredOk [x] (fun n => sameNode n x) :=
+  fun _ h hm h0 => pv_sameNode h x hm (h0 x (by simp))
+
+theorem pv_inScopeNamedS {c : List Id} (scope : EName → Bool) (n : Str) : PV c (inScopeNamedS scope n) nil :=
+  pv_inScope scope _ [] (predOk_htmlElemNamedS n) (fun _ h => nomatch h)
+macro_rules | `(tactic| pv_leaf) => `(tactic| with_reducible exact pv_inScopeNamedS _ _)
+theorem pv_inScopeNamed {c : List Id} (scope : EName → Bool) (n : String) : PV c (inScopeNamed scope n) nil :=
+  pv_inScopeNamedS scope _
+macro_rules | `(tactic| pv_leaf) => `(tactic| with_reducible exact pv_inScopeNamed _ _)
+theorem pv_inScope_elemIn {c : List Id} (scope f : EName → Bool) : PV c (inScope scope (fun n => elemIn n f)) nil :=
+  pv_inScope scope _ [] (predOk_elemIn f) (fun _ h => nomatch h)
+macro_rules | `(tactic| pv_leaf) => `(tactic| with_reducible exact pv_inScope_elemIn _ _)
+theorem pv_inScope_sameNode_l {c : List Id} (scope : EName → Bool) (x : Id) (hx : x ∈ c) :
+    PV c (inScope scope (fun n => sameNode x n)) nil :=
+  pv_inScope scope _ [x] (predOk_sameNode_l x) (by mem_tac)
+macro_rules | `(tactic| pv_leaf) => `(tactic| (with_reducible apply pv_inScope_sameNode_l) <;> mem_tac)
+theorem pv_inScope_sameNode_r {c : List Id} (scope : EName → Bool) (x : Id) (hx : x ∈ c) :
+    PV c (inScope scope (fun n => sameNode n x)) nil :=
+  pv_inScope scope _ [x] (predOk_sameNode_r x) (by mem_tac)
+macro_rules | `(tactic| pv_leaf) => `(tactic| (with_reducible apply pv_inScope_sameNode_r) <;> mem_tac)
+
+theorem pv_generateImpliedEndTagsLoop (set : EName → Bool) : ∀ (c : List Id) (fuel : Nat),
+    PV c (generateImpliedEndTagsLoop set fuel) nil
+  | c, 0 => by unfold generateImpliedEndTagsLoop; pv_walk
+  | c, fuel + 1 => by
+    have ih := fun c' => pv_generateImpliedEndTagsLoop set c' fuel
+    unfold generateImpliedEndTagsLoop; pv_walk
+    all_goals first | exact ih _ | skip
+macro_rules | `(tactic| pv_leaf) => `(tactic| with_reducible exact pv_generateImpliedEndTagsLoop _ _ _)
+
+theorem pv_generateImpliedEndTags {c : List Id} (set : EName → Bool) : PV c (generateImpliedEndTags set) nil := by
+  unfold generateImpliedEndTags; pv_walk
+macro_rules | `(tactic| pv_leaf) => `(tactic| with_reducible exact pv_generateImpliedEndTags _)
+theorem pv_generateImpliedEndExcept {c : List Id} (e : Str) : PV c (generateImpliedEndExcept e) nil :=
+  pv_generateImpliedEndTags _
+macro_rules | `(tactic| pv_leaf) => `(tactic| with_reducible exact pv_generateImpliedEndExcept _)
+
+theorem pv_popUntilCurrentLoop (set : EName → Bool) : ∀ (c : List Id) (fuel : Nat),
+    PV c (popUntilCurrentLoop set fuel) nil
+  | c, 0 => by unfold popUntilCurrentLoop; pv_walk
+  | c, fuel + 1 => by
+    have ih := fun c' => pv_popUntilCurrentLoop set c' fuel
+    unfold popUntilCurrentLoop; pv_walk
+    all_goals first | exact ih _ | skip
+macro_rules | `(tactic| pv_leaf) => `(tactic| with_reducible exact pv_popUntilCurrentLoop _ _ _)
+theorem pv_popUntilCurrent {c : List Id} (set : EName → Bool) : PV c (popUntilCurrent set) nil := by
+  unfold popUntilCurrent; pv_walk
+macro_rules | `(tactic| pv_leaf) => `(tactic| with_reducible exact pv_popUntilCurrent _)
+
+theorem pv_popUntilLoop (pred : EName → Bool) : ∀ (c : List Id) (fuel n : Nat),
+    PV c (popUntilLoop pred fuel n) nil
+  | c, 0, _ => by unfold popUntilLoop; pv_walk
+  | c, fuel + 1, n => by
+    have ih := fun c' => pv_popUntilLoop pred c' fuel
+    unfold popUntilLoop; pv_walk
+    all_goals first | exact ih _ _ | skip
+macro_rules | `(tactic| pv_leaf) => `(tactic| with_reducible exact pv_popUntilLoop _ _ _ _)
+theorem pv_popUntil {c : List Id} (pred : EName → Bool) : PV c (popUntil pred) nil := by
+  unfold popUntil; pv_walk
+macro_rules | `(tactic| pv_leaf) => `(tactic| with_reducible exact pv_popUntil _)
+theorem pv_popUntilNamedS {c : List Id} (n : Str) : PV c (popUntilNamedS n) nil := pv_popUntil _
+macro_rules | `(tactic| pv_leaf) => `(tactic| with_reducible exact pv_popUntilNamedS _)
+theorem pv_popUntilNamed {c : List Id} (n : String) : PV c (popUntilNamed n) nil := pv_popUntil _
+macro_rules | `(tactic| pv_leaf) => `(tactic| with_reducible exact pv_popUntilNamed _)
+theorem pv_expectToCloseS {c : List Id} (n : Str) : PV c (expectToCloseS n) nil := by
+  unfold expectToCloseS; pv_walk
+macro_rules | `(tactic| pv_leaf) => `(tactic| with_reducible exact pv_expectToCloseS _)
+theorem pv_expectToClose {c : List Id} (n : String) : PV c (expectToClose n) nil := pv_expectToCloseS _
+macro_rules | `(tactic| pv_leaf) => `(tactic| with_reducible exact pv_expectToClose _)
+theorem pv_closePElement {c : List Id} : PV c closePElement nil := by unfold closePElement; pv_walk
+macro_rules | `(tactic| pv_leaf) => `(tactic| with_reducible exact pv_closePElement)
+theorem pv_closePElementInButtonScope {c : List Id} : PV c closePElementInButtonScope nil := by
+  unfold closePElementInButtonScope; pv_walk
+macro_rules | `(tactic| pv_leaf) => `(tactic| with_reducible exact pv_closePElementInButtonScope)
+
+theorem pv_checkBodyEndLoop : ∀ (c : List Id) (l : List Id), (∀ x ∈ l, x ∈ c) → PV c (checkBodyEndLoop l) nil
+  | c, [], _ => by unfold checkBodyEndLoop; pv_walk
+  | c, e :: rest, hl => by
+    have ih := fun c' => pv_checkBodyEndLoop c' rest
+    unfold checkBodyEndLoop; pv_walk
+    all_goals first | (apply ih; mem_tac) | skip
+macro_rules | `(tactic| pv_leaf) => `(tactic| (with_reducible apply pv_checkBodyEndLoop) <;> mem_tac)
+theorem pv_checkBodyEnd {c : List Id} : PV c checkBodyEnd nil := by unfold checkBodyEnd; pv_walk
+macro_rules | `(tactic| pv_leaf) => `(tactic| with_reducible exact pv_checkBodyEnd)
+
+theorem pv_bodyElem {c : List Id} : PV c bodyElem Option.toList := by unfold bodyElem; pv_walk
+macro_rules | `(tactic| pv_leaf) => `(tactic| with_reducible exact pv_bodyElem)
 
 end H5V.Props.C18
